@@ -176,6 +176,10 @@ fn string_alphabet(cur: &str) -> Vec<String> {
         v.push(t.to_string());
         v.push(std::iter::repeat(t).take(8).collect::<String>().chars().take(31).collect());
     }
+    // NUL padding at either end (a decoder must not normalise what the encoder writes)
+    for t in ["\0", "A\0", "AB\0\0", "\0A", "\u{e9}\0", "a b \0 "] {
+        v.push(t.to_string());
+    }
     v.retain(|s| s != cur);
     v.dedup();
     v
@@ -746,6 +750,25 @@ pub fn explore_base(rep: &mut Report, fl: &Flags, number: u16, base_name: &str, 
             } else {
                 n_rejected += 1;
             }
+        }
+    }
+    // every list emptied at once (e.g. an MSM message without satellites, signals and cells)
+    if lists.len() > 1 {
+        let mut t = tree0.clone();
+        // innermost paths first so that outer replacements do not invalidate them
+        let mut ps: Vec<&Vec<usize>> = lists.iter().collect();
+        ps.sort_by_key(|p| std::cmp::Reverse(p.len()));
+        for p in ps {
+            if let Some(VTree::Seq(v)) = t.get_mut(p) {
+                v.clear();
+            }
+        }
+        n_dev += 1;
+        if run(rep, &t, &|| json!({"number":number,"base":base_name,"level":1,"deviations":[{"path":"every list","list":"len0"}]})) {
+            rep.states += 1;
+            rep.outcome("all-lists-empty-accepted-by-deserialize");
+        } else {
+            n_rejected += 1;
         }
     }
     // level 2: pairs drawn from header leaves, leaves of the first and last list element, list nodes
